@@ -141,6 +141,12 @@ Definition reader_step (s : st) : st :=
   | RIdle | RParked | RDone => s
   end.
 
+(* `<-timeoutCh`: the value is received *)
+Definition take_tick (s : st) : st :=
+  {| pend := pend s; rbuf := rbuf s; token := token s; closeN := closeN s; ss := ss s; epc := epc s; ppc := ppc s;
+     lc := lc s; sclosing := sclosing s; dpc := dpc s; now := now s; dl := dl s; tmr := tmr s; tch := false; ptick := ptick s; use_t := use_t s;
+     armed := armed s; rd := rd s; minsz := minsz s; res := res s |}.
+
 Definition wake (s : st) (b : branch) : st :=
   match rd s with
   | RParked =>
@@ -152,7 +158,7 @@ Definition wake (s : st) (b : branch) : st :=
            armed := armed s; rd := RWokeN; minsz := minsz s; res := res s |}
       else s
     | BClose => if closeN s then set_rd s RWokeC else s
-    | BTimer => if use_t s && tch s then finish_late s RErrTimeout else s
+    | BTimer => if use_t s && tch s then finish_late (take_tick s) RErrTimeout else s
     end
   | _ => s
   end.
